@@ -43,6 +43,12 @@ func runC19(c *Ctx, pr *PropertyRun) {
 	if res.Runs < 10 {
 		r.Unresolved("decision table has fewer than 10 rows: the function no longer looks at its input")
 	}
+	// the table is extracted under value semantics: the function must not
+	// write the calendar it is given (an in-place filter of cal.Children —
+	// comps[:0] plus append — changes what the second pass reads)
+	pure := NewRule("C19", "C19.pure", "ValidateCalendarObject and its in-module callees write only to locally allocated memory (E5)")
+	pr.Rules = append(pr.Rules, pure)
+	purityRule(c, pure, pkgCaldav, []string{"ValidateCalendarObject"})
 }
 
 // icalModels: go-ical's two accessors Props.Get and Props.Text are interpreted
